@@ -480,10 +480,8 @@ def probe_short_table(chk, mods):
         msg = 'skool2asm raises IndexError (%s) on `%s`' % (e, ' '.join(case['ttoks']))
     chk.case('e2e-span-table', ('spantable', 'short'), None)
     if msg:
-        if SHORT_TABLE_KEY in framework.load_known(chk.pid):
-            chk.violation(SHORT_TABLE_KEY, msg, {'kind': 'shorttable', 'key': SHORT_TABLE_KEY})
-        else:
-            chk.note('observation (genuine defect outside the known-findings list, not raised as a violation): ' + msg)
+        # repaired in /repo by a07561e (fixed: line in KNOWN_FINDINGS.txt): an ordinary violation if it returns
+        chk.violation(SHORT_TABLE_KEY, msg, {'kind': 'shorttable', 'key': SHORT_TABLE_KEY})
 
 
 def rand_cfg(rng):
@@ -571,8 +569,6 @@ def e2e(chk, mods):
     # 5. #TABLE blocks whose cells span rows/columns (unique words: each exactly once, in order within its cell)
     for n in range(chk.scale(60, 800)):
         case = annot.gen_span_table_case(rng)
-        while case['short']:
-            case = annot.gen_span_table_case(rng)     # the class of SHORT_TABLE_KEY: one deterministic instance below
         text = annot.span_table_skool(rng, case)
         report(chk, 'spantable', check_span_table(chk, mods, case, text), {'case': case, 'text': text})
         chk.case('e2e-span-table', ('spantable', n), {'tool': 'skool2asm/skool2html/sna2skool', 'definition': ' '.join(case['ttoks'])[:120]} if n < 1 else None)
